@@ -272,7 +272,11 @@ def run(ctx):
                         n_ep_ = len(pb.lin.t)
                         want_ = base - n_ep_ * np.log(session.gen.conv(1.0, pb.dspec["unit"], nu_))
                         okf = np.isfinite(want_) & np.isfinite(other_unit)
-                        if np.any(okf) and np.max(np.abs(other_unit[okf] - want_[okf]) / (1 + np.abs(want_[okf]))) > 1e-5:
+                        # (only on flat / moderately informative data: on sharply peaked likelihoods the rounding of the unit
+                        # conversion itself moves values by more than any fixed relative allowance - that regime is C07's, with
+                        # measured tolerances)
+                        if pb.profile in ("flat", "moderate") and np.any(okf) and \
+                                np.max(np.abs(other_unit[okf] - want_[okf]) / (1 + np.abs(want_[okf]))) > 1e-4:
                             ctx.violation("value-depends-on-call-history", "the same data quoted in %s after %s on the same TheJoker: values "
                                           "are off by up to %.3g from the base values shifted by the Jacobian"
                                           % (nu_, hist, float(np.max(np.abs(other_unit[okf] - want_[okf])))), dict(desc, history=hist))
@@ -280,8 +284,9 @@ def run(ctx):
                     elif op == "other-lib":
                         j.marginal_ln_likelihood(pb.data, other.lib, in_memory=bool(rng.random() < 0.5))
                     elif op == "rejection":
-                        j.rejection_sample(pb.data, pb.lib, n_linear_samples=int(rng.choice([1, 4])),
-                                           in_memory=bool(rng.random() < 0.5))
+                        if np.any(np.isfinite(base)):     # rejection needs one finite likelihood to return anything
+                            j.rejection_sample(pb.data, pb.lib, n_linear_samples=int(rng.choice([1, 4])),
+                                               in_memory=bool(rng.random() < 0.5))
                     elif op == "failed":
                         try:
                             j.marginal_ln_likelihood(pb.data, "/nonexistent/file.hdf5")
@@ -350,6 +355,11 @@ def run(ctx):
                                   "TheJoker the likelihoods are not those of the new data (%d of %d equal the OLD data's values)"
                                   % (int(np.sum(second == want1)), N), desc)
             # rejection: equal seeds => equal accepted tag set on every path
+            if not np.all(np.isfinite(base)):
+                # rejection_sample needs a finite likelihood among the rows it evaluates (C02's domain); the sub-libraries and
+                # scripted orders below may select only non-finite rows of such a library: these cases are left to C02/C06
+                ctx.count("cases_with_nonfinite_likelihoods_rejection_paths_skipped")
+                continue
             seed = int(rng.integers(0, 2 ** 31))
             sets = {}
             for pk, nb, kind, im in [(0, None, "obj", True), (0, None, "obj", False), (0, 3, "file", False),
